@@ -5,6 +5,7 @@ from __future__ import annotations
 import ast
 import itertools
 
+from ..alpha import Loc, amatch
 from ..const import Folder
 from ..flow import flat_guards
 from ..model import FuncInfo, Model, dotted, norm, walk_no_nested
@@ -26,27 +27,31 @@ def _state_name(e: ast.AST) -> str | None:
 
 
 def eval_test(t: ast.expr, env: dict) -> bool:
-    """Evaluate a test of one() under an assignment of the finite predicates."""
+    """Evaluate a test of one() under an assignment of the finite predicates.  env['_roles'] says which local is the
+    state, the counter, the success flag and the disabled flag (found by dataflow, see roles_of_one)."""
+    R = env['_roles']
     if isinstance(t, ast.BoolOp):
         vals = [eval_test(v, env) for v in t.values]
         return all(vals) if isinstance(t.op, ast.And) else any(vals)
     if isinstance(t, ast.UnaryOp) and isinstance(t.op, ast.Not):
         return not eval_test(t.operand, env)
     if isinstance(t, ast.Name):
-        if t.id in ('successful', 'disabled'):
-            return env[t.id]
+        if t.id == R['successful']:
+            return env['successful']
+        if t.id == R['disabled']:
+            return env['disabled']
         raise Undecidable(norm(t))
     if isinstance(t, ast.Compare) and len(t.ops) == 1:
         l, r, op = t.left, t.comparators[0], t.ops[0]
         ld, rd = dotted(l) or '', dotted(r) or ''
-        if ld == 'state' and _state_name(r):
+        if ld == R['state'] and _state_name(r):
             if isinstance(op, ast.Eq):
                 return env['state'] == _state_name(r)
             if isinstance(op, ast.NotEq):
                 return env['state'] != _state_name(r)
         if ld in ('options.rise', 'options.fall') and isinstance(r, ast.Constant) and r.value == 1 and isinstance(op, ast.LtE):
             return env[ld.split('.')[1] + '_le1']
-        if ld == 'checks' and rd in ('options.rise', 'options.fall'):
+        if ld == R['counter'] and rd in ('options.rise', 'options.fall'):
             # after the increment: does the counter reach the threshold?  `>=` is the RFC-free reference form;
             # anything else is reported through the operator recorded in env
             env.setdefault('_cmp', []).append((type(op).__name__, rd))
@@ -62,6 +67,7 @@ def run_one(fn: ast.FunctionDef, env: dict) -> tuple[str | None, list[str]]:
     """Walk the FSM part of one() under env; returns (trigger target or None, counter operations in order)."""
     target: list[str | None] = [None]
     ops: list[str] = []
+    R = env['_roles']
 
     def block(body: list[ast.stmt]) -> None:
         for st in body:
@@ -70,17 +76,20 @@ def run_one(fn: ast.FunctionDef, env: dict) -> tuple[str | None, list[str]]:
                     block(st.body)
                 else:
                     block(st.orelse)
-            elif isinstance(st, ast.Assign) and dotted(st.targets[0]) == 'state' and isinstance(st.value, ast.Call) and dotted(st.value.func) == 'trigger':
-                nm = _state_name(st.value.args[0]) if st.value.args else None
+            elif isinstance(st, ast.Assign) and dotted(st.targets[0]) == R['state'] and isinstance(st.value, ast.Call) and dotted(st.value.func) == 'trigger':
+                a0 = st.value.args[0] if st.value.args else None
+                while isinstance(a0, ast.IfExp):
+                    a0 = a0.body if eval_test(a0.test, env) else a0.orelse
+                nm = _state_name(a0) if a0 is not None else None
                 if nm is None:
                     raise Undecidable(norm(st))
                 target[0] = nm
-            elif isinstance(st, ast.Assign) and dotted(st.targets[0]) == 'checks':
+            elif isinstance(st, ast.Assign) and dotted(st.targets[0]) == R['counter']:
                 if isinstance(st.value, ast.Constant):
                     ops.append('=%s' % st.value.value)
                 else:
                     raise Undecidable(norm(st))
-            elif isinstance(st, ast.AugAssign) and dotted(st.target) == 'checks' and isinstance(st.op, ast.Add) and isinstance(st.value, ast.Constant):
+            elif isinstance(st, ast.AugAssign) and dotted(st.target) == R['counter'] and isinstance(st.op, ast.Add) and isinstance(st.value, ast.Constant):
                 ops.append('+%s' % st.value.value)
             elif isinstance(st, ast.Raise):
                 target[0] = 'RAISE'
@@ -89,7 +98,7 @@ def run_one(fn: ast.FunctionDef, env: dict) -> tuple[str | None, list[str]]:
             else:
                 raise Undecidable(norm(st)[:60])
 
-    fsm = [st for st in fn.body if isinstance(st, ast.If) and 'state' in norm(st.test)]
+    fsm = [st for st in fn.body if isinstance(st, ast.If) and R['state'] in {x.id for x in ast.walk(st.test) if isinstance(x, ast.Name)}]
     if not fsm:
         raise Undecidable('state machine if-chain not found')
     block([fsm[0]])
@@ -139,10 +148,19 @@ def check(model: Model, run: Run) -> None:
         'the counter, DISABLED dominates',
         floor=60,
     )
+    ol = Loc(model, one)
+    op_ = [a.arg for a in one.node.args.args]
+    succ = ol.from_value(lambda v: isinstance(v, ast.BoolOp) and isinstance(v.op, ast.Or) and any(isinstance(x, ast.Call) and dotted(x.func) == 'check' for x in v.values))
+    dis_n = [x.id for nm in succ for v in ol.values(nm) if isinstance(v, ast.BoolOp) for x in v.values if isinstance(x, ast.Name)]
+    rets = [r for r in walk_no_nested(one.node) if isinstance(r, ast.Return) and isinstance(r.value, ast.Tuple)]
+    if len(op_) != 2 or len(succ) != 1 or len(dis_n) != 1 or not rets or [dotted(e) for e in rets[-1].value.elts] != op_:
+        run.cannot('one(): counter / state parameters, `successful = disabled or check(...)` or the returned (counter, state) not found (shape not understood)')
+        return
+    ROLES = {'counter': op_[0], 'state': op_[1], 'successful': succ[0], 'disabled': dis_n[0]}
     n_cases = 0
     for state, dis, okc, r1, reach in itertools.product(STATES, (False, True), (False, True), (False, True), (False, True)):
-        succ = dis or okc  # successful = disabled or check(...)
-        env = {'state': state, 'disabled': dis, 'successful': succ, 'rise_le1': r1, 'fall_le1': r1, 'reach': reach, 'reach_strict': False if not reach else None}
+        succ_v = dis or okc  # successful = disabled or check(...)
+        env = {'_roles': ROLES, 'state': state, 'disabled': dis, 'successful': succ_v, 'rise_le1': r1, 'fall_le1': r1, 'reach': reach, 'reach_strict': False if not reach else None}
         try:
             got = run_one(one.node, dict(env))
         except Undecidable as e:
@@ -163,43 +181,146 @@ def check(model: Model, run: Run) -> None:
             )
     run.extra['table_cells'] = n_cases
     # `successful` really includes the disabled short-cut, and the comparisons are >=
-    sdef = [n for n in walk_no_nested(one.node) if isinstance(n, ast.Assign) and dotted(n.targets[0]) == 'successful']
-    run.check(len(sdef) == 1 and norm(sdef[0].value).startswith('disabled or check('), one.qualname, 'successful = disabled or check(...)', one.loc(), 'the table above assumes it')
-    cmps = [norm(n) for n in walk_no_nested(one.node) if isinstance(n, ast.Compare) and 'checks' in norm(n)]
-    run.check(sorted(cmps) == ['checks >= options.fall', 'checks >= options.rise'], one.qualname, 'threshold tests %s' % sorted(cmps), one.loc(), 'UP after exactly `rise` successes, DOWN after exactly `fall` failures (>=)')
+    C_, S_ = ROLES['counter'], ROLES['state']
+    cmps = [norm(n).replace(C_, '<counter>') for n in walk_no_nested(one.node) if isinstance(n, ast.Compare) and C_ in {x.id for x in ast.walk(n) if isinstance(x, ast.Name)}]
+    run.check(sorted(cmps) == ['<counter> >= options.fall', '<counter> >= options.rise'], one.qualname, 'threshold tests %s' % sorted(cmps), one.loc(), 'UP after exactly `rise` successes, DOWN after exactly `fall` failures (>=)')
     # the RISING branch compares with rise, the FALLING branch with fall
     for st_name, thr in (('RISING', 'options.rise'), ('FALLING', 'options.fall')):
         okb = False
         for n in walk_no_nested(one.node):
-            if isinstance(n, ast.If) and norm(n.test) == 'state == States.%s' % st_name:
-                okb = any(isinstance(c, ast.Compare) and norm(c) == 'checks >= %s' % thr for c in ast.walk(n))
+            if isinstance(n, ast.If) and norm(n.test) == '%s == States.%s' % (S_, st_name):
+                okb = any(isinstance(c, ast.Compare) and norm(c) == '%s >= %s' % (C_, thr) for c in ast.walk(n))
         run.check(okb, one.qualname, '%s compares the counter with %s' % (st_name, thr), one.loc(), 'rise counts successes, fall counts failures')
     # trigger(): shortcuts
-    t_txt = [norm(st) for st in trig.node.body if isinstance(st, ast.If)]
-    okt = bool(t_txt) and 'target == States.RISING and options.rise <= 1' in t_txt[0] and 'target = States.UP' in t_txt[0] and 'target == States.FALLING and options.fall <= 1' in t_txt[0] and 'target = States.DOWN' in t_txt[0]
+    tp = trig.node.args.args[0].arg if trig.node.args.args else '?'
+    t_txt = ' ; '.join(norm(st) for st in trig.node.body if isinstance(st, ast.If))
+    okt = ('%s == States.RISING and options.rise <= 1' % tp) in t_txt and ('%s = States.UP' % tp) in t_txt and ('%s == States.FALLING and options.fall <= 1' % tp) in t_txt and ('%s = States.DOWN' % tp) in t_txt
+    # each shortcut sits under its own test
+    for iff in (st for st in ast.walk(trig.node) if isinstance(st, ast.If)):
+        tt, bb = norm(iff.test), ' ; '.join(norm(x) for x in iff.body)
+        if 'States.RISING' in tt and 'States.DOWN' in bb and 'States.UP' not in bb:
+            okt = False
+        if ('options.rise' in tt and 'States.FALLING' in tt) or ('options.fall' in tt and 'States.RISING' in tt):
+            okt = False
     rets = [r for r in walk_no_nested(trig.node) if isinstance(r, ast.Return)]
-    run.check(okt and len(rets) == 1 and dotted(rets[0].value) == 'target', trig.qualname, 'rise<=1 / fall<=1 shortcuts, returns the target', trig.loc(), 'with rise or fall of 1 the intermediate state is skipped')
+    run.check(okt and len(rets) == 1 and dotted(rets[0].value) == tp, trig.qualname, 'rise<=1 / fall<=1 shortcuts, returns the target', trig.loc(), 'with rise or fall of 1 the intermediate state is skipped')
     # initial state
-    init = [n for n in loop.node.body if isinstance(n, ast.Assign) and dotted(n.targets[0]) in ('checks', 'state')]
-    run.check({norm(n) for n in init} == {'checks = 0', 'state = States.INIT'}, loop.qualname, 'starts in INIT with counter 0', loop.loc(), 'initial state')
+    ll = Loc(model, loop)
+    oc = [c for c in walk_no_nested(loop.node) if isinstance(c, ast.Call) and dotted(c.func) == 'one' and len(c.args) == 2]
+    init_ok = False
+    if oc:
+        c0, s0 = (dotted(a) or '?' for a in oc[0].args)
+        first_c = ll.defs.get(c0, [(None, '', None)])[0][0]
+        first_s = ll.defs.get(s0, [(None, '', None)])[0][0]
+        init_ok = folder.fold(first_c, loop.module) == 0 and dotted(first_s) == 'States.INIT' if first_c is not None and first_s is not None else False
+    run.check(init_ok, loop.qualname, 'starts in INIT with counter 0', loop.loc(), 'initial state')
     # one() announces the (possibly new) state
     calls = [c for c in walk_no_nested(one.node) if isinstance(c, ast.Call) and dotted(c.func) == 'exabgp']
-    okc2 = len(calls) == 1 and dotted(calls[0].args[0]) == 'state' and [norm(t) for t, p in flat_guards(one.node, calls[0])] == ['not options.debounce or state != state_before_iteration']
+    prev = ol.from_value(lambda v: isinstance(v, ast.Name) and v.id == S_)
+    g_ = [t for t, p in flat_guards(one.node, calls[0]) if p] if calls else []
+    okc2 = len(calls) == 1 and dotted(calls[0].args[0]) == S_ and len(g_) == 1 and any(amatch('not options.debounce or V_s != V_p', g_[0], {'V_s': S_, 'V_p': p_}) is not None for p_ in prev)
     run.check(okc2, one.qualname, 'exabgp(state) on change, or every round without debounce', one.loc(), 'announcement driven by the state')
 
     # ------------------------------------------------------------------ R2 what is announced
     run.rule('C20.R2', 'exabgp(target) writes nothing for INIT/RISING/FALLING; announces for UP; for DOWN/DISABLED withdraws iff withdraw_on_down else announces; EXIT always withdraws; SIGTERM and KeyboardInterrupt call exabgp(EXIT) unconditionally', floor=5)
-    first = exa.node.body[1] if isinstance(exa.node.body[0], ast.Expr) else exa.node.body[0]
-    okf = isinstance(first, ast.If) and norm(first.test) == 'target not in (States.UP, States.DOWN, States.DISABLED, States.EXIT, States.END)' and isinstance(first.body[-1], ast.Return)
-    run.check(okf, exa.qualname, 'transitional states write nothing', exa.loc(first), 'a single contrary result (RISING/FALLING) must not change what is announced')
-    act = None
-    for n in walk_no_nested(exa.node):
-        if isinstance(n, ast.If) and norm(n.test) == 'options.withdraw_on_down or target is States.EXIT':
-            act = n
-    oka = act is not None and norm(act.body[0]) == "action = 'announce' if target is States.UP else 'withdraw'" and norm(act.orelse[0]) == "action = 'announce'"
-    run.check(oka, exa.qualname, 'action table (UP announce; EXIT withdraw; DOWN/DISABLED withdraw iff withdraw_on_down)', exa.loc(act) if act is not None else exa.loc(), 'what is announced per state')
+    # what exabgp(target) does, as a table over target x withdraw_on_down, by walking the function with the tests on the
+    # target evaluated and every other test taken both ways (such a branch must not decide the action or return)
+    tpar = exa.node.args.args[0].arg if exa.node.args.args else '?'
+    xl = Loc(model, exa)
+    actions = xl.from_value(lambda v: any(isinstance(x, ast.Constant) and x.value in ('announce', 'withdraw') for x in ast.walk(v)) and not isinstance(v, ast.JoinedStr))
+    ALL = ['INIT', 'DISABLED', 'RISING', 'FALLING', 'UP', 'DOWN', 'EXIT', 'END']
+
+    def ev(t: ast.expr, tgt: str, wod: bool):
+        """True / False / None (does not depend on the target or withdraw_on_down)"""
+        if isinstance(t, ast.BoolOp):
+            vals = [ev(v, tgt, wod) for v in t.values]
+            if isinstance(t.op, ast.And):
+                return False if any(v is False for v in vals) else (None if any(v is None for v in vals) else True)
+            return True if any(v is True for v in vals) else (None if any(v is None for v in vals) else False)
+        if isinstance(t, ast.UnaryOp) and isinstance(t.op, ast.Not):
+            v = ev(t.operand, tgt, wod)
+            return None if v is None else not v
+        if dotted(t) == 'options.withdraw_on_down':
+            return wod
+        if isinstance(t, ast.Name) and xl.single(t.id) is not None:
+            return ev(xl.single(t.id), tgt, wod)
+        if isinstance(t, ast.Compare) and len(t.ops) == 1 and dotted(t.left) == tpar:
+            op, r = t.ops[0], t.comparators[0]
+            if isinstance(op, (ast.In, ast.NotIn)) and isinstance(r, (ast.Tuple, ast.List, ast.Set)):
+                names = [_state_name(e) for e in r.elts]
+                if None in names:
+                    return None
+                return (tgt in names) == isinstance(op, ast.In)
+            nm = _state_name(r)
+            if nm is not None and isinstance(op, (ast.Is, ast.Eq)):
+                return tgt == nm
+            if nm is not None and isinstance(op, (ast.IsNot, ast.NotEq)):
+                return tgt != nm
+        return None
+
+    def value(e: ast.expr, tgt: str, wod: bool) -> str | None:
+        while isinstance(e, ast.IfExp):
+            v = ev(e.test, tgt, wod)
+            if v is None:
+                return None
+            e = e.body if v else e.orelse
+        return e.value if isinstance(e, ast.Constant) and isinstance(e.value, str) else None
+
+    def walk_x(body: list[ast.stmt], tgt: str, wod: bool, st_: dict) -> bool:
+        """returns True when the function returned; st_['action'] is the action in force, st_['wrote'] the actions written"""
+        for st in body:
+            if isinstance(st, ast.Return):
+                return True
+            if isinstance(st, ast.If):
+                v = ev(st.test, tgt, wod)
+                if v is None:
+                    for br in (st.body, st.orelse):
+                        for x in br:
+                            for y in ast.walk(x):
+                                if isinstance(y, ast.Return) or (isinstance(y, ast.Assign) and dotted(y.targets[0]) in actions):
+                                    raise Undecidable('a test that does not read the target decides the action: %s' % norm(st.test)[:60])
+                        walk_x(br, tgt, wod, st_)
+                    continue
+                if walk_x(st.body if v else st.orelse, tgt, wod, st_):
+                    return True
+            elif isinstance(st, (ast.For, ast.While)):
+                if walk_x(st.body, tgt, wod, st_):
+                    return True
+            elif isinstance(st, ast.Assign) and dotted(st.targets[0]) in actions:
+                a = value(st.value, tgt, wod)
+                if a is None:
+                    raise Undecidable('action value not understood: %s' % norm(st.value)[:60])
+                st_['action'] = a
+            elif isinstance(st, ast.Expr) and isinstance(st.value, ast.Call) and dotted(st.value.func) == 'sys.stdout.write':
+                st_['wrote'].add(st_.get('action'))
+            elif isinstance(st, (ast.Continue, ast.Break)):
+                return False
+        return False
+
+    def want_action(tgt: str, wod: bool) -> set:
+        if tgt in ('INIT', 'RISING', 'FALLING', 'END'):
+            return set()
+        if tgt == 'UP':
+            return {'announce'}
+        if tgt == 'EXIT':
+            return {'withdraw'}
+        return {'withdraw'} if wod else {'announce'}
+
+    if len(actions) != 1:
+        run.cannot('exabgp(): the local holding the action (announce / withdraw) was not found')
+    else:
+        for tgt in ALL:
+            for wod in (False, True):
+                stt = {'wrote': set()}
+                try:
+                    walk_x(exa.node.body, tgt, wod, stt)
+                except Undecidable as e:
+                    run.cannot('exabgp(): %s' % e)
+                    break
+                got_a = {a for a in stt['wrote']}
+                run.check(got_a == want_action(tgt, wod), exa.qualname, 'target=%s withdraw_on_down=%s writes %s' % (tgt, wod, sorted(map(str, got_a)) or 'nothing'), exa.loc(), 'transitional states write nothing; UP announces; EXIT withdraws; DOWN/DISABLED withdraw iff withdraw_on_down else announce (expected %s)' % (sorted(want_action(tgt, wod)) or 'nothing'))
     wr = [c for c in walk_no_nested(exa.node) if isinstance(c, ast.Call) and dotted(c.func) == 'sys.stdout.write']
-    run.check(len(wr) == 1 and norm(wr[0].args[0]) == "f'{command} {announce}\\n'", exa.qualname, 'one line per prefix: command + announce + newline', exa.loc(), 'each command is one line')
+    run.check(len(wr) == 1 and isinstance(wr[0].args[0], ast.JoinedStr) and isinstance(wr[0].args[0].values[-1], ast.Constant) and wr[0].args[0].values[-1].value == '\n' and sum(1 for v in wr[0].args[0].values if isinstance(v, ast.Constant) and '\n' in str(v.value)) == 1, exa.qualname, 'one line per prefix: command + announce + newline', exa.loc(), 'each command is one line')
     # exits
     sig = model.func(HC + '.loop.sigterm_handler')
     run.analysed(sig)
@@ -258,6 +379,16 @@ def check(model: Model, run: Run) -> None:
     run.check(okr, 'exabgp.reactor.api.command.announce', '`route` handled for announce and withdraw', 'src/' + amod.rel, 'the route sub-command must exist')
     # prefix built from neighbors
     ptxt = norm(exa.node)
-    run.check("', '.join((f'peer {neighbor}' for neighbor in options.neighbors))" in ptxt and "prefix = 'peer *'" in ptxt, exa.qualname, 'selector prefix: peer <neighbor>[, peer <neighbor>] or peer *', exa.loc(), 'selector syntax')
+    star = {dotted(n.targets[0]) for n in walk_no_nested(exa.node) if isinstance(n, ast.Assign) and isinstance(n.value, ast.Constant) and n.value.value == 'peer *'}
+    each = {dotted(n.targets[0]) for n in walk_no_nested(exa.node) if isinstance(n, ast.Assign) and amatch("', '.join((f'peer {V_n}' for V_n in options.neighbors))", n.value) is not None}
+    run.check(bool(star & each), exa.qualname, 'selector prefix: peer <neighbor>[, peer <neighbor>] or peer *', exa.loc(), 'selector syntax')
     # metric / state options
-    run.check("vars(options).get(f'{target.value.lower()}_metric', 0)" in ptxt and 'metric += options.increase' in ptxt and "f'{announce} med {metric}'" in ptxt, exa.qualname, 'med = <state>_metric, increased per prefix', exa.loc(), 'the configured metric of the state is announced')
+    mvars = xl.from_value(lambda v: amatch("vars(options).get(f'{V_t.value.lower()}_metric', 0)", v, {'V_t': tpar}) is not None)
+    inc = [n for n in walk_no_nested(exa.node) if isinstance(n, ast.AugAssign) and isinstance(n.op, ast.Add) and dotted(n.target) in mvars and dotted(n.value) == 'options.increase']
+    med = False
+    for n in walk_no_nested(exa.node):
+        if isinstance(n, ast.JoinedStr):
+            for i, v in enumerate(n.values):
+                if isinstance(v, ast.Constant) and str(v.value).endswith(' med ') and i + 1 < len(n.values) and isinstance(n.values[i + 1], ast.FormattedValue) and dotted(n.values[i + 1].value) in mvars:
+                    med = True
+    run.check(len(mvars) == 1 and len(inc) == 1 and med, exa.qualname, 'med = <state>_metric, increased per prefix', exa.loc(), 'the configured metric of the state is announced')
